@@ -32,6 +32,11 @@ CLAIMS = {
   "The memory guard arithmetic is proved: every allocation site reachable from string/array repetition, concatenation, append and MakeObjectSlice is preceded on all paths by a check that bounds the requested bytes by the ghost memory budget "
   "(guard.alloc obligations generated at each make/append/Repeat), with 64-bit overflow modelled. Two unguarded sites are recorded as known findings.",
   "Assumed: runtime.MemStats-based FreeMemory is an oracle for the budget (contract assumed); sizes of Go values per amd64."),
+ "C10": ("proof",
+  "Normal-return paths: every member of the evaluator family (Eval, evalInternal and the 20 eval* / apply* functions it dispatches to) is verified, assuming the others' contracts, to return with the session's scope pointer, recursion depth, output writer and the register count of every pre-existing scope exactly as on entry "
+  "(frame and regs clauses) - so an input that ends in a language error, a timeout error or a depth error returned as a value leaves none of these behind. Recovered panics: the deferred handler of repl.EvalOne is verified to reset scope and depth and to restore the writer saved at entry (the genuine defect found here is fixed). "
+  "What 'every later input produces the same output' additionally needs - bindings, cache and macro store untouched by an input that failed before any side effect - is a whole-history relation outside per-function contracts; a bounded history stand-in compares sessions with and without failing inputs.",
+  "Assumed: (*State).quote frame (callback through ast.Modify), extension callbacks preserve the frame (dyncall ensures), Go panic unwinding itself is not modelled (only the handler's effect); bounded stand-in is not a proof."),
  "C11": ("proof",
   "SmallMap.get/Set and the sorted-pairs representation are proved against an abstract map view (sortedness, no duplicate keys, lookup = view) using the uninterpreted-but-lawful Cmp of C12; "
   "BigMap operations that go through slices.BinarySearchFunc/Insert use assumed stdlib contracts. Merge/delete on big maps and the small/large threshold crossing are covered by a bounded model comparison, labelled bounded.",
@@ -65,7 +70,6 @@ NOT_APPLICABLE = {
  "C03": "contracts for this property are not implemented yet (work in progress, see DESIGN.md section 6)",
  "C04": "contracts for this property are not implemented yet (work in progress, see DESIGN.md section 6)",
  "C06": "contracts for this property are not implemented yet (work in progress, see DESIGN.md section 6)",
- "C10": "contracts for this property are not implemented yet (work in progress, see DESIGN.md section 6)",
  "C13": "contracts for this property are not implemented yet (work in progress, see DESIGN.md section 6)",
  "C14": "contracts for this property are not implemented yet (work in progress, see DESIGN.md section 6)",
  "C15": "contracts for this property are not implemented yet (work in progress, see DESIGN.md section 6)",
